@@ -30,6 +30,8 @@ func c16Containers() []model.Value {
 		model.Hash(he(model.Float(0.1), model.Int(1)), he(model.Float(0.2), model.Int(2)), he(model.Float(0.3), model.Int(3)), he(model.Float(-0.5), model.Int(4))),
 		model.Hash(he(model.Int(256), model.Str("i")), he(model.Int(512), model.Str("j")), he(model.Int(65536), model.Str("k")), he(model.Int(4294967296), model.Str("l")), he(model.Int(-256), model.Str("m"))),
 		model.Hash(he(model.Str("ab"), model.Int(1)), he(model.Str("ba"), model.Int(2)), he(model.Str("a"), model.Int(3)), he(model.Str("b"), model.Int(4)), he(model.Str(""), model.Int(5))),
+		// arrays as elements: present is present, a prefix or an empty array is not
+		model.Arr(model.Arr(model.Int(1), model.Int(2)), model.Arr(model.Int(3))), model.Arr(model.Arr(), model.Int(1)), model.Arr(model.Arr(model.Arr(model.Str("x"), model.Str("y")), model.Int(2)), model.Str("[1]")),
 		// entries and elements that are null, false, zero and empty are entries and elements all the same
 		model.Arr(model.Null(), model.Int(1), model.Null()), model.Arr(model.Null()), model.Arr(model.Bool(false), model.Int(0), model.Str(""), model.Null(), model.Arr(), model.Hash()),
 		model.Hash(he(model.Str("a"), model.Int(1)), he(model.Str("b"), model.Null()), he(model.Str("c"), model.Int(3))), model.Hash(he(model.Int(7), model.Null())),
@@ -131,6 +133,8 @@ func c16(c *ev.Ctx) {
 				if v.K == model.KArr {
 					cands = append(cands, v.A...)
 					cands = append(cands, model.Int(1), model.Float(1), model.Str("1"), model.Str("a"), model.Int(99), model.Bool(true), model.Bool(false), model.Null(), model.Str(""))
+					cands = append(cands, model.Arr(), model.Arr(model.Int(1)), model.Arr(model.Int(1), model.Int(2)), model.Arr(model.Int(1), model.Int(2), model.Int(3)), model.Arr(model.Int(3)), model.Arr(model.Int(2)),
+						model.Arr(model.Arr(model.Str("x")), model.Int(2)), model.Arr(model.Arr(model.Str("x"), model.Str("y")), model.Int(2)), model.Arr(model.Arr(model.Str("x"), model.Str("y"))), model.Arr(model.Arr()), model.Hash())
 				} else {
 					for _, r := range v.S {
 						cands = append(cands, model.Str(string(r)))
